@@ -38,7 +38,7 @@ func funcsByAddr(prop string) []int {
 	var out []int
 	for _, t := range hist.Targets {
 		if prop == "C06" {
-			if t.Kind == "method" && !t.Generic && t.Known == "" {
+			if t.Kind == "method" && !t.Generic && t.Known == "" && !t.NoOrigin && t.FixArgs == nil {
 				out = append(out, t.Idx)
 			}
 			continue
@@ -175,6 +175,9 @@ func wellFormed(p *world.Plan) bool {
 	for _, op := range p.Tasks[0].Ops {
 		if op.T < 0 || op.T >= len(hist.Targets) || (op.K != "apply" && op.K != "ret" && op.K != "retseq") || steady[op.T] {
 			return false
+		}
+		if tt := hist.Targets[op.T]; tt.FixArgs != nil || (op.K == "apply" && op.F&1 == 1 && (tt.NoOrigin || tt.Generic || tt.MkOrig == nil)) {
+			return false // no origin placeholder for this target / a target only world hist can call
 		}
 		steady[op.T] = true
 	}
